@@ -31,11 +31,11 @@ type outLine struct {
 	Panic  string          `json:"panic"`
 	Out    string          `json:"out,omitempty"`
 	// binary_log build only
-	Heads   []prog.Head  `json:"heads,omitempty"`   // RFC 8949 heads found by the independent scanner
-	Item    *prog.Item   `json:"item,omitempty"`    // the event decoded by the independent generic decoder
+	Heads   []prog.Head  `json:"heads,omitempty"` // RFC 8949 heads found by the independent scanner
+	Item    *prog.Item   `json:"item,omitempty"`  // the event decoded by the independent generic decoder
 	ItemErr string       `json:"itemerr,omitempty"`
-	Rest    int          `json:"rest"`              // bytes left after the first item
-	Dec     string       `json:"dec,omitempty"`     // what the bundled decoder makes of it (base64)
+	Rest    int          `json:"rest"`          // bytes left after the first item
+	Dec     string       `json:"dec,omitempty"` // what the bundled decoder makes of it (base64)
 	DecErr  string       `json:"decerr,omitempty"`
 	DecPan  string       `json:"decpanic,omitempty"`
 	DTok    []string     `json:"dtokens,omitempty"` // lexer on the decoded JSON
